@@ -278,14 +278,22 @@ def write_read(ctx, tmp, f, exp, what, ext=None, keep=False):
 
 
 # ------------------------------------------------------------- kinds 0, 1: random
-def random_field(ctx, tmp, spec=None, ext=None):
+def random_field(ctx, tmp, spec=None, ext=None, large=False):
     rng = ctx.rng
-    again = spec is None and rng.random() < 0.35
+    again = spec is None and not large and rng.random() < 0.35
     if again:
         ext = gen.pick(rng, [".h5", ".hdf5"])
     if spec is None:
         spec = gen.rand_meshspec(rng, n_max=6 if ctx.thorough else 5,
                                  max_cells=600 if ctx.thorough else 200)
+    if large:
+        # more than 2**20 stored numbers, odd cell counts: a writer or reader that works in
+        # slabs / chunks has several of them and a partial last one
+        spec = gen.rand_meshspec(rng, nd=3, n_max=3, int_corners=False)
+        n_big = np.array([int(rng.integers(120, 160)) | 1, int(rng.integers(70, 90)) | 1,
+                          int(rng.integers(34, 44)) | 1])[rng.permutation(3)]
+        spec = gen.MeshSpec(spec.pmin, spec.cell, n_big, spec.dims, spec.units, spec.flip)
+        ctx.event("large_fields")
     tol = float(gen.pick(rng, TOLS))
     bc = _rand_bc(rng, spec.dim_names)
     boxes, regions = gen.rand_subregions(rng, spec, kmax=3)
@@ -306,6 +314,8 @@ def random_field(ctx, tmp, spec=None, ext=None):
     nvdim = int(gen.pick(rng, [1, 1, 2, 3, 3, 4, 5]))
     dtype = gen.pick(rng, ["float", "float", "complex", "int", "int32", "bigint", "bool",
                            "float32", "complex64"])
+    if large:
+        nvdim, dtype = 3, gen.pick(rng, ["float", "float32", "int32"])
     arr = _values(rng, (*nlist, nvdim), dtype)
     labels = ig.rand_labels(rng, nvdim)
     if nvdim == 1 and rng.random() < 0.3:  # a one-component field may carry a label too
@@ -522,7 +532,9 @@ def run_case(ctx, i):
     tmp = tempfile.mkdtemp(prefix="c10_")
     try:
         kind = ig.kind_of(i)
-        if kind in (0, 1):
+        if i % 480 == 97:
+            random_field(ctx, tmp, large=True)
+        elif kind in (0, 1):
             random_field(ctx, tmp)
         elif kind == 2:
             corner_typing(ctx, tmp)
